@@ -246,7 +246,8 @@ def search(ctx):
         return None
     best = shrink(ctx, best)
     best["contradicts"] = "C16.Props.layout_invariant"
-    best["key"] = "layout-last-continuation-line-indent"
+    best["key"] = ("layout-last-continuation-line-indent" if best.get("why", "").startswith("tab indentation")
+                   else "layout-changes-commands")
     return best
 
 
